@@ -196,6 +196,19 @@ func worldGen(tape *simrt.Tape, tier, focus string) *worldCase {
 	if tape.Bool(1, 10, "slownode") {
 		c.SlowNode = 1 + tape.Choose(10, "slowpermille")
 	}
+	if focus == "c05" && c.ClientFault == "none" && tape.Bool(1, 8, "serial-slow-client") {
+		// a serial client (one RPC at a time, as a client under test may be) that
+		// needs several seconds per case: the requests of one batch queue up
+		// behind another batch's for longer than any single timeout of the runner,
+		// while the client itself keeps answering steadily
+		c.SerialSlowClient = true
+		c.Client.InProcess = 1
+		c.Client.QueueAhead = tape.Bool(1, 2, "queue-ahead")
+		for i := range c.Fates {
+			c.Fates[i].DelayMs = 10500 + (i*977)%3000
+			c.Fates[i].Never = false
+		}
+	}
 	return c
 }
 
